@@ -125,23 +125,19 @@ Theorem C09_runner_never_keyerror : forall spoll tr s id ser,
 Proof. exact runner_finds_itself. Qed.
 Print Assumptions C09_runner_never_keyerror.
 
-(* "stopping never stalls": FALSE of the faithful model (finding F1) — an idle-only timer whose stopper is set spins for ever *)
-Theorem C09_stop_terminates_refuted : exists c p, forall fuel, timer_tail false c false fuel p = None.
-Proof. exact timer_tail_refuted. Qed.
-Print Assumptions C09_stop_terminates_refuted.
-
-(* ... true for every timer that has an interval, or no idle, or saw an idle reset after its last start: <= 1 further sleep() *)
-Theorem C09_stop_terminates_partial : forall c ra p fuel,
-  reachable_point c p = true -> (t_interval c <> None \/ t_idle c = None \/ ra = true) -> (4 <= fuel)%nat ->
-  exists n, timer_tail false c ra fuel p = Some n /\ (n <= 1)%nat.
-Proof. exact timer_tail_partial. Qed.
-Print Assumptions C09_stop_terminates_partial.
-
-(* ... and for EVERY timer once the idle-only loop also tests the stopper (the proposed one-line repair) *)
-Theorem C09_stop_terminates_if_guarded : forall c ra p fuel, (4 <= fuel)%nat ->
+(* "stopping never stalls", timer part, FULL statement (true of the faithful model since fix ba077d7, finding F1 = fixed): once
+   its stopper is set, every timer — interval / idle / both / neither, sharp or not, whatever the idle-reset time — leaves its
+   loop from every program point after at most one further, non-suspending sleep() call *)
+Theorem C09_stop_terminates : forall c ra p fuel, (4 <= fuel)%nat ->
   exists n, timer_tail true c ra fuel p = Some n /\ (n <= 1)%nat.
-Proof. exact timer_tail_guarded. Qed.
-Print Assumptions C09_stop_terminates_if_guarded.
+Proof. exact timer_tail_terminates. Qed.
+Print Assumptions C09_stop_terminates.
+
+(* HYPOTHETICAL VARIANT (not the code): the idle-only loop WITHOUT the stopper test, as before ba077d7, would spin for ever.
+   This is what a revert of the fix re-introduces; the D:timer tie and the stall monitor turn it into a VIOLATION. *)
+Theorem C09_unguarded_loop_would_spin : exists c p, forall fuel, timer_tail false c false fuel p = None.
+Proof. exact unguarded_loop_would_spin. Qed.
+Print Assumptions C09_unguarded_loop_would_spin.
 
 (* "asked to stop when the object disappears": FALSE of the faithful model (finding F7) — DELETED without deletionTimestamp *)
 Theorem C09_stop_on_disappear_refuted :
